@@ -16,8 +16,9 @@ def canon_type(qt):
 
 class StdVector(Plugin):
     """std::vector<T> for scalar / pointer T: struct v_vec_<T> (models/vec_model.h)"""
-    def __init__(self):
+    def __init__(self, fixed=None):
         self.decls = {}   # C struct name -> element C type
+        self.fixed = fixed or {}   # element C type -> constant capacity (bounded model B(cap), DESIGN C08)
 
     def elem_of(self, name):
         name = canon_type(name)
@@ -31,7 +32,10 @@ class StdVector(Plugin):
         cn = 'v_vec_' + re.sub(r'\W', '_', ect.replace('struct ', '').replace('*', 'p').replace(' ', ''))
         if cn not in self.decls:
             self.decls[cn] = ect
-            unit.emitted_types['~' + cn] = 'V_VEC_DECL(%s, %s)' % (ect, cn)
+            if ect in self.fixed:
+                unit.emitted_types['~' + cn] = 'V_VECFIX_DECL(%s, %s, %d)' % (ect, cn, self.fixed[ect])
+            else:
+                unit.emitted_types['~' + cn] = 'V_VEC_DECL(%s, %s)' % (ect, cn)
             unit.type_order.append('~' + cn)
         return 'struct ' + cn
 
@@ -61,7 +65,9 @@ class StdVector(Plugin):
         if name in ('size', 'empty', 'data', 'resize', 'reserve', 'clear', 'pop_back'):
             return '%s_%s(%s)' % (cn, name, ', '.join([recv] + a))
         if name in ('push_back', 'emplace_back') and len(a) == 1:
-            return '%s_push_back(%s, %s)' % (cn, recv, a[0])
+            a0 = a[0]
+            if a0.startswith('(*') and a0.endswith(')') and self.decls.get(cn, '').startswith('struct '): pass
+            return '%s_push_back(%s, %s)' % (cn, recv, a0)
         if name in ('back', 'front'):
             return '(*%s_%s(%s))' % (cn, name, recv)
         if name == 'at':
